@@ -120,6 +120,37 @@ Fixpoint strrchr_from (fuel : nat) (s : list N) (c : N) (i : nat) (last : option
   end.
 Definition strrchr_m (s : list N) (c : N) : res (option nat) := strrchr_from (S (length s)) s c 0 None.
 
+(* ---- memchr(s + off, '\0', n): index (from off) of the first NUL among the n bytes, each read
+        through the checked accessor; None when there is none ---- *)
+Fixpoint memchr0_from (s : list N) (off i n : nat) {struct n} : res (option nat) :=
+  match n with
+  | O => Ok None
+  | S n' =>
+    let* c := rd s (off + i) in
+    if c =? 0 then Ok (Some i) else memchr0_from s off (S i) n'
+  end.
+
+(* ---- prettyprint_unix(name, namelen), as repaired (finding F14): NULL when the name is shorter
+        than the offset of sun_path; otherwise the bytes of sun_path up to the first NUL or up to
+        the end of the name, whichever comes first, copied into a fresh string of pathlen + 1 bytes.
+        Result: the content of that C string (None = NULL) ---- *)
+Definition prettyprint_unix_m (sa : sock_addr) : res (option (list N)) :=
+  let namelen := length (sa_name sa) in
+  let off := N.to_nat off_sun_path in
+  if (namelen <? off)%nat then Ok None
+  else
+    let avail := (namelen - off)%nat in
+    let* e := memchr0_from (sa_name sa) off 0 avail in
+    let pathlen := match e with Some k => k | None => avail end in
+    let* s := memcpy_m (alloc (S pathlen) 170) 0 (sa_name sa) off pathlen in
+    let* s := wr s pathlen 0 in
+    Ok (Some (firstn pathlen s)).
+
+(* the branch as it was BEFORE the repair: strdup(name->sun_path), namelen not consulted; kept
+   for the regression statement (it Faults on a name without a terminator inside the block) *)
+Definition prettyprint_unix_old_m (sa : sock_addr) : res (option (list N)) :=
+  let* s := cstr_at (sa_name sa) (N.to_nat off_sun_path) in Ok (Some s).
+
 Section Resolve.
   Variable pton6 : list N -> option (list N).   (* inet_pton(AF_INET6, text): 16 bytes or failure *)
   Variable ntop6 : list N -> list N.            (* inet_ntop(AF_INET6, 16 bytes) *)
@@ -141,9 +172,7 @@ Section Resolve.
       prettyprint_inet fmt_pp_ipv4 n_sin off_sin_port off_sin_addr 4 ntop4 sa
     else if sa_family sa =? af_inet6 then
       prettyprint_inet fmt_pp_ipv6 n_sin6 off_sin6_port off_sin6_addr 16 ntop6 sa
-    else if sa_family sa =? af_unix then
-      (* strdup(name->sun_path): reads up to the terminator, namelen is not consulted *)
-      let* s := cstr_at (sa_name sa) (N.to_nat off_sun_path) in Ok (Some s)
+    else if sa_family sa =? af_unix then prettyprint_unix_m sa
     else Ok (Some unknown_address).
 
   (* ---- sock_resolve_unix ---- *)
